@@ -1,4 +1,5 @@
 import Chartparse.Proofs.Strict
+import Chartparse.Proofs.ChainProofs
 /-! Property theorems of C12 (statements only; helper lemmas live in `Proofs/`). -/
 namespace Chartparse.Props.C12
 open Chartparse Chartparse.Tempo Chartparse.F64
@@ -25,5 +26,38 @@ theorem tsRec_strict :
       tsRec res (evs.map EvN.toEv) a = some x → tsRec res (evs.map EvN.toEv) b = some y →
       exactRec res evs b < 1000000000000 → x < y :=
   @Chartparse.Tempo.tsRec_strict
+
+/-- **C12 (monotone)**: on any map the code builds, for any two ticks `a ≤ b`, the un-hinted query never goes back
+    in time — no envelope, no bound on resolution, tempo or tick -/
+theorem C12_mono :
+    ∀ (res : Nat) (raw : List (Nat × Rat)) (evs : List BpmEv) (hb : buildMap (res : Int) raw = .ok evs)
+    (a b : Nat) (hab : a ≤ b) (x y : Int) (ga gb : Nat)
+    (ha : tsAt (res : Int) evs (a : Int) 0 = .ok (x, ga)) (hbq : tsAt (res : Int) evs (b : Int) 0 = .ok (y, gb)),
+    x ≤ y :=
+  @Chartparse.Tempo.C12_mono
+
+/-- **C12 (equal ticks)**: the query is a function of the tick (whatever hints were used on the way) -/
+theorem C12_equal :
+    ∀ (res : Int) (evs : List BpmEv) (hs : (evs.map (·.tick)).Pairwise (· < ·)) (tick : Int) (h h' : Nat)
+    (r r' : Int × Nat) (hq : tsAt res evs tick h = .ok r) (hq' : tsAt res evs tick h' = .ok r'),
+    r = r' :=
+  @Chartparse.Tempo.C12_equal
+
+/-- **C12 (strict)**: whenever every tick lasts at least two microseconds (`n·res ≤ 3·10¹⁰`, i.e. BPM × resolution ≤
+    3·10⁷) and the exact time stays below 10⁶ s, the query is strictly increasing -/
+theorem C12_strict :
+    ∀ (res : Nat) (hres : 1 ≤ res) (pairs : List (Nat × Nat)) (hn : ∀ p ∈ pairs, 1 ≤ p.2)
+    (hslow : ∀ p ∈ pairs, p.2 * res ≤ 30000000000)
+    (evs : List BpmEv) (hb : mapOf res pairs = .ok evs) (a b : Nat) (hab : a < b) (x y : Int) (ga gb : Nat)
+    (ha : tsAt (res : Int) evs (a : Int) 0 = .ok (x, ga)) (hbq : tsAt (res : Int) evs (b : Int) 0 = .ok (y, gb))
+    (hE : exactUs res pairs b < 1000000000000),
+    x < y :=
+  @Chartparse.Tempo.C12_strict
+
+/-- the literal statement without a time bound is false for binary64 — the listed known finding, as a kernel-checked
+    witness on the model: resolution 1000, 30000 BPM (2 µs per tick), ticks 2·10¹⁶ and 2·10¹⁶+1 get the same time -/
+theorem strict_fails_outside_envelope :
+    usOfSeconds (secsFromTicks 20000000000000000 (decodeBpm 30000000) 1000) =
+    usOfSeconds (secsFromTicks 20000000000000001 (decodeBpm 30000000) 1000) := by decide +kernel
 
 end Chartparse.Props.C12
